@@ -13,6 +13,7 @@ import (
 	"math/big"
 	"net/http"
 	"strings"
+	"sync"
 	"time"
 
 	sxg "github.com/WICG/webpackage/go/signedexchange"
@@ -281,11 +282,13 @@ func cloneExchange(e *sxg.Exchange) *sxg.Exchange {
 var sxgKeys []keyMat
 var sxgEdKey keyMat
 
+var sxgKeysOnce sync.Once
+
 func keysOnce() {
-	if sxgKeys == nil {
+	sxgKeysOnce.Do(func() {
 		sxgKeys = []keyMat{newECKey(elliptic.P256(), "example.com", 0, 0), newECKey(elliptic.P384(), "example.com", 1, 0), newECKey(elliptic.P256(), "evil.test", 2, 40)}
 		sxgEdKey = newEdKey("example.com")
-	}
+	})
 }
 
 const baseDate = int64(1600000000)
